@@ -1691,7 +1691,7 @@ esl_sq_CountResidues(const ESL_SQ *sq, int start, int L, float *f)
       return eslERANGE; //range out of sequence bounds
 
     for (i=start ; i < start+L; i++) {
-      if(! esl_abc_CIsGap(sq->abc, sq->seq[i])) // ignore gap characters
+      if (esl_abc_CIsValid(sq->abc, sq->seq[i]) && ! esl_abc_CIsGap(sq->abc, sq->seq[i])) // ignore gap characters, and characters outside the alphabet
         esl_abc_FCount(sq->abc, f, sq->abc->inmap[(int) sq->seq[i]], 1.);
     }
   } else  { /* digital sequence; 0 is a sentinel       */
